@@ -43,6 +43,9 @@ func genC15(g *simrt.Tape, tier string) any {
 		nr := 1 + g.Draw(3)
 		for r := 0; r < nr; r++ {
 			rs := ReqSc{Version: 4, Option: g.Draw(3), Hdr: genHdr(g)}
+			// (direct callers) the request's context may be cancelled already, or be cancelled by one of its handlers:
+			// the executor goes on with the batch all the same, and so does the placeholder
+			rs.Ctx = []int{0, 0, 0, 0, 1, 2}[g.Draw(6)]
 			ni := 1 + g.Draw(5)
 			for i := 0; i < ni; i++ {
 				it := ItemSc{Tok: c15Actions[g.Draw(len(c15Actions))]}
@@ -54,6 +57,10 @@ func genC15(g *simrt.Tape, tier string) any {
 					it.NoID = true
 				}
 				rs.Items = append(rs.Items, it)
+			}
+			if rs.Ctx == 2 {
+				k := g.Draw(len(rs.Items))
+				rs.Items[k].Tok = "cc," + rs.Items[k].Tok
 			}
 			cn.Reqs = append(cn.Reqs, rs)
 		}
@@ -204,7 +211,8 @@ func execC15(x *X, scAny any) {
 			s.Spawn(fmt.Sprintf("conn%d", ci), func() {
 				defer func() { done++ }()
 				for ri := range sc.Conns[ci].Reqs {
-					_ = w.exec.HandleRequest(context.Background(), buildRequest(&sc.Conns[ci].Reqs[ri], fmt.Sprintf("k%d.r%d", ci, ri)))
+					prefix := fmt.Sprintf("k%d.r%d", ci, ri)
+					_ = w.exec.HandleRequest(w.requestContext(&sc.Conns[ci].Reqs[ri], prefix), buildRequest(&sc.Conns[ci].Reqs[ri], prefix))
 					s.YieldNow("between-requests")
 				}
 			})
@@ -292,6 +300,16 @@ func c15Floor(tier string) []*C15Sc {
 				out = append(out, &C15Sc{Direct: true, SplitMw: true, WrapMw: noid, Conns: []C15Conn{{Reqs: []ReqSc{{Version: 4, Items: append(items, ItemSc{Tok: "pr"})}, {Version: 4, Items: []ItemSc{{Tok: "pr"}}}}}}})
 			}
 		}
+	}
+	// the request context cancelled before the request, or by the handler of each item in turn
+	for k := -1; k < 4; k++ {
+		items := []ItemSc{{Tok: "pw"}, {Tok: "pr"}, {Tok: "pw,pr"}, {Tok: "pr"}}
+		rs := ReqSc{Version: 4, Ctx: 1, Items: items}
+		if k >= 0 {
+			rs.Ctx = 2
+			items[k].Tok = "cc," + items[k].Tok
+		}
+		out = append(out, &C15Sc{Direct: true, Conns: []C15Conn{{Reqs: []ReqSc{rs, {Version: 4, Items: []ItemSc{{Tok: "pr"}}}}}}})
 	}
 	// every combination of optional header elements around "store, read, store, read" on one connection
 	for _, h := range allHdrs() {
